@@ -363,7 +363,7 @@ structure Feed where
   chunks : List Bytes
   closes : Bool                            -- after the chunks the engine closes its stdout / exits
 
-/-- one `stdout.next().await`; `fuel` bounds the loop (number of chunks + 3 suffices) -/
+/-- one `stdout.next().await`; `fuel` bounds the loop (two iterations per chunk + 4 suffice) -/
 def pollNext : Nat → FrState → Feed → CallResult × FrState × Feed
   | 0, st, fd => (.pending, st, fd)
   | fuel + 1, st, fd =>
@@ -398,7 +398,7 @@ def pollNext : Nat → FrState → Feed → CallResult × FrState × Feed
 def runCalls : Nat → FrState → Feed → List CallResult
   | 0, _, _ => []
   | n + 1, st, fd =>
-    let r := pollNext (fd.chunks.length + 4) st fd
+    let r := pollNext (2 * fd.chunks.length + 6) st fd
     r.1 :: runCalls n r.2.1 r.2.2
 
 end Slt
